@@ -122,7 +122,7 @@ class Gen:
             k = rng.choices(kinds, [self.w[x] for x in kinds])[0]
             st = getattr(self, "_g_" + k)(sim)
             if st is not None:
-                if self.reentrant and st["op"] not in ("run", "idle", "gate", "read", "new_pool") and rng.random() < self.reentrant:
+                if self.reentrant and st["op"] not in ("run", "idle", "gate", "read", "new_pool", "bad_pool") and rng.random() < self.reentrant:
                     st["at"] = [rng.choice(POINTS), rng.choice([1, 1, 2, 3])]
                 return st
         return {"op": "run", "n": 1}
@@ -200,7 +200,9 @@ class Gen:
 
     def _g_bad_spawn(self, sim):
         rng = self.rng
-        how = rng.choice(["notcoro", "nc0", "dup", "state", "state"])
+        how = rng.choice(["notcoro", "nc0", "dup", "state", "state", "negsize"])
+        if how == "negsize":
+            return {"op": "bad_pool", "p": self._pool(sim).idx, "v": rng.choice([-1, -2, -100])}
         if how == "dup":
             pc = self._pool(sim, "T")
             if pc is None or not pc.live_names:
